@@ -1,9 +1,10 @@
 """C11 - thread count and run-to-run nondeterminism never change a result.
 
 Decided clauses:
-  C11.pool     on every path of every subcommand arm the global rayon pool is initialised fatally
-               (build_global().unwrap()/expect/?) at most once  (raising --threads must not turn a
-               succeeding command into a failing one)
+  C11.pool     global-pool typestate over every path of every subcommand arm of main (interprocedural): a fatal
+               initialisation (build_global().unwrap()/expect/?) is never reached after the pool has been initialised by
+               an earlier build_global (fatal or with the result discarded) or implicitly by driving a parallel
+               iterator / join  (raising --threads must not turn a succeeding command into a failing one)
   C11.capture  closures handed to rayon outside skalo capture no shared mutable state
   C11.bridge   unordered bridging (par_bridge) only in skalo; distance rows are gathered by an indexed collect
   C11.offsets  parallel_append passes (bottom, offset) and (top, offset + split_point); samples are built
@@ -49,6 +50,34 @@ def fatal_init(body, bb, t):
     return None
 
 
+RAYON_DRIVERS = ('for_each', 'for_each_with', 'for_each_init', 'collect', 'collect_into_vec', 'sum', 'product', 'reduce', 'reduce_with', 'count',
+                 'min', 'max', 'min_by', 'max_by', 'min_by_key', 'max_by_key', 'any', 'all', 'find_any', 'find_first', 'find_map_any', 'try_for_each',
+                 'unzip', 'partition', 'try_reduce', 'collect_vec_list', 'position_any', 'position_first')
+
+
+def pool_effect(body, bb, t):
+    """effect letters for the global-pool typestate, as bit sets: 1 = the global pool is (now) initialised, 2 = this step is a fatal
+    initialisation (it fails when the pool is already initialised).  build_global().unwrap()/expect/? = 3; build_global() with the
+    result discarded = 1; driving a parallel iterator / join / scope on the global pool initialises it implicitly = 1."""
+    n = t.callee.name or ''
+    if n == 'rayon::ThreadPoolBuilder::build_global':
+        f = fatal_init(body, bb, t)
+        if f:
+            return (f, 3)
+        return ('build_global() with the result discarded in %s' % body.name, 1)
+    if n in ('rayon::join', 'rayon::scope', 'rayon::spawn', 'rayon::current_num_threads', 'rayon::join_context', 'rayon::in_place_scope'):
+        return ('%s in %s (initialises the global pool implicitly)' % (n, body.name), 1)
+    if n.startswith(('rayon::iter::ParallelIterator::', 'rayon::iter::IndexedParallelIterator::', 'rayon::iter::FromParallelIterator::')) and n.split('::')[-1] in RAYON_DRIVERS:
+        return ('%s in %s (initialises the global pool implicitly)' % (n.split('rayon::iter::')[-1], body.name), 1)
+    return None
+
+
+def pool_compose(a, b):
+    """abstract words: bit 1 = contains an initialisation, bit 2 = contains a fatal one, bit 4 = some fatal initialisation is preceded
+    by an initialisation (the command fails although a lower thread count / no --threads would have succeeded)"""
+    return (a | b) | (4 if (a & 1 and b & 2) else 0)
+
+
 def run(facts, chk, tier, only=None):
     from . import buildops
     # the parallel build, functionally: sample i owns name i and column i for every recursion depth
@@ -56,7 +85,7 @@ def run(facts, chk, tier, only=None):
     main = facts.fn('main')
     # ---------------------------------------------------------------- pool
     def pool():
-        ea = EffectAnalysis(facts, fatal_init)
+        ea = EffectAnalysis(facts, pool_effect, compose=pool_compose)
         eb = ExprBuilder(main)
         cmd = facts.adt('cli::Commands')
         sw = None
@@ -82,8 +111,10 @@ def run(facts, chk, tier, only=None):
         out = []
         for name, tg in arms:
             res = ea.explore(main, (), 0, only_from=tg)
-            worst = max([c for (c, rv) in res] or [0])
-            wit = next((w for (c, rv), w in res.items() if c == worst), ())
+            worst = 0
+            for (c, rv) in res:
+                worst |= c
+            wit = next((w for (c, rv), w in res.items() if c & 4), None) or next((w for (c, rv), w in res.items() if c == worst), ())
             out.append((name, worst, wit, len(res)))
         return out, sites, ea
     r = chk.guard('C11.pool', 'C11.pool:main', pool)
@@ -93,14 +124,15 @@ def run(facts, chk, tier, only=None):
         chk.floor('C11.pool', 'build_global call sites', len(sites), 3)
         for name, worst, wit, n in out:
             key = 'C11.pool:main:%s' % name
-            if worst >= 2:
+            if worst & 4:
                 chk.violation('C11.pool', key, where=wit[-1].split(' @ ')[-1].split(' -> ')[0] if wit else '',
-                              detail='the global rayon pool can be initialised fatally twice on one path of `ska %s`: %s'
-                                     % (name.lower(), '  +  '.join(wit)),
+                              detail='on one path of `ska %s` a fatal initialisation of the global rayon pool (build_global().unwrap()/expect/?) is reached after the pool '
+                                     'has already been initialised, so it fails: %s' % (name.lower(), '  +  '.join(wit)),
                               construct=dict(arm=name, path=list(wit)))
             else:
-                chk.ok('C11.pool', key, '', 'max fatal initialisations on any path = %d (%d path classes)' % (worst, n), evals=n,
-                       sample=dict(arm=name, max_inits=worst, witness=list(wit)))
+                chk.ok('C11.pool', key, '', 'no fatal initialisation of the global pool is preceded by another initialisation (explicit, tolerant or implicit) on any path (%d path classes; effects seen: %s)'
+                       % (n, {0: 'none', 1: 'tolerant/implicit only', 3: 'one fatal first'}.get(worst & 3, worst)), evals=n,
+                       sample=dict(arm=name, effects=worst, witness=list(wit)))
         chk.extra['build_global_sites'] = [dict(function=a, site=b, fatal=c) for a, b, c in sites]
 
     # ---------------------------------------------------------------- capture audit
